@@ -27,7 +27,7 @@ from qstrader import settings
 QSTRADER_ROOT = os.environ.get("QSTRADER_ROOT", "/repo")
 assert os.path.realpath(qstrader.__file__).startswith(os.path.realpath(QSTRADER_ROOT)), (
     "qstrader resolves to %s, expected under %s" % (qstrader.__file__, QSTRADER_ROOT))
-settings.PRINT_EVENTS = False
+settings.PRINT_EVENTS = os.environ.get("PYVC_AMBIENT") == "1"      # (ambient re-run: the library default True, output discarded)
 
 from qstrader.alpha_model.alpha_model import AlphaModel  # noqa: E402
 from qstrader.alpha_model.fixed_signals import FixedSignalsAlphaModel  # noqa: E402
@@ -277,7 +277,7 @@ class _QtsTap(object):
         return getattr(self.inner, name)
 
 
-def build_session(csv_dir, cfg, data_source=None):
+def build_session(csv_dir, cfg, data_source=None, default_handler=False):
     """cfg (JSON-able):
       symbols [..]; start/end/burn_in "YYYY-MM-DD HH:MM" (burn_in may be None);
       rebalance 'weekly'|'daily'|'end_of_month'|'buy_and_hold'; weekday 'MON'..'FRI';
@@ -342,7 +342,7 @@ def build_session(csv_dir, cfg, data_source=None):
     session = BacktestTradingSession(
         start_dt, end_dt, universe, alpha, signals=signals, initial_cash=cfg.get("initial_cash", 1e6),
         rebalance=cfg["rebalance"], long_only=long_only, fee_model=fee_model, burn_in_dt=burn_in,
-        data_handler=data_handler, portfolio_id=PORTFOLIO_ID, **kwargs)
+        data_handler=None if (default_handler and signals is None) else data_handler, portfolio_id=PORTFOLIO_ID, **kwargs)
 
     taps = {"txns": [], "holder": {"stats": None, "calls": []}}
     port = session.broker.portfolios[PORTFOLIO_ID]
@@ -406,11 +406,11 @@ def observe(session, taps, error=None):
     return obs
 
 
-def run_session(csv_dir, cfg, data_source=None):
+def run_session(csv_dir, cfg, data_source=None, default_handler=False):
     """Build and run the real session; never raises for a failing run: the error (type, message, broker
     clock when it was raised) is part of the observation."""
     try:
-        session, taps = build_session(csv_dir, cfg, data_source=data_source)
+        session, taps = build_session(csv_dir, cfg, data_source=data_source, default_handler=default_handler)
     except Exception as exc:  # noqa: BLE001
         return {"error": {"type": type(exc).__name__, "msg": str(exc), "at": "0000-00-00 construction"},
                 "equity": [], "fills": [], "txns": [], "alloc_rows": [], "qts_calls": [], "cash": float("nan"),
